@@ -27,9 +27,9 @@ EVIDENCE_DIR = os.path.join(VERIF, "evidence")
 REPLAY_DIR = os.path.join(VERIF, "replays")
 KNOWN = os.path.join(VERIF, "known_findings.json")
 SCRATCH_ROOT = os.environ.get("VERIF_SCRATCH", "/var/tmp")
-JOBS = int(os.environ.get("VERIF_JOBS", "8"))
-TOTAL_MEM_KB = int(os.environ.get("VERIF_TOTAL_MEM_KB", str(48 * 1024 * 1024)))
-MEM_KB = int(os.environ.get("VERIF_MEM_KB", str(7 * 1024 * 1024)))  # per process (ulimit -v)
+JOBS = int(os.environ.get("VERIF_JOBS", "14"))
+TOTAL_MEM_KB = int(os.environ.get("VERIF_TOTAL_MEM_KB", str(50 * 1024 * 1024)))
+MEM_KB = int(os.environ.get("VERIF_MEM_KB", str(10 * 1024 * 1024)))  # per process (ulimit -v)
 
 CRATE_OF_DIR = {"vm": "gluon_vm", "base": "gluon_base", "parser": "gluon_parser",
                 "check": "gluon_check", "format": "gluon_format"}
